@@ -41,6 +41,9 @@ fn main() {
         }
     }
     rqv::common::quiet_panics();
+    if !args.extra.get("monitor").map(|m| m.contains("valgrind")).unwrap_or(false) {
+        rqv::common::crashlog::install(&args.prop, &args.part, &args.root, args.seed);
+    }
     let ctx = Ctx::new(args);
     // A panic of the harness itself (not of the library under catch_unwind) is inconclusive.
     let r = std::panic::catch_unwind(std::panic::AssertUnwindSafe(|| rqv::props::run(&ctx)));
